@@ -215,6 +215,8 @@ def run_pass(world, pspec, vector):
 
     # --------------------------------------------------------------- threads
     results = [[None] * len(p) for p in progs]
+    regviews = [[(True, True)] * len(p) for p in progs]   # registration state seen by an op and by everything it was built from
+    mviews = [dict() for _ in progs]
     res_dig = [[None] * len(p) for p in progs]
     privs = [dict() for _ in progs]
     priv_snaps = [dict() for _ in progs]
@@ -291,7 +293,16 @@ def run_pass(world, pspec, vector):
             for fk in ctx.fired:
                 stats["faults_fired"][fk[0]] += 1
             results[k][i] = val
-            oc = _outcome(val) + (regb, vector._awkward_registered, _akdep(op, env, val))
+            rb, ra = regb, vector._awkward_registered
+            for t_, v_ in ops.op_refs(op):
+                dv = regviews[k][v_] if t_ == "r" and 0 <= v_ < i else (mviews[k].get(v_) if t_ == "m" else None)
+                if dv is not None:
+                    rb, ra = rb and dv[0], ra and dv[1]
+            regviews[k][i] = (rb, ra)
+            for key_ in ("bind", "defm"):
+                if key_ in op:
+                    mviews[k][op[key_]] = (rb, ra)
+            oc = _outcome(val) + (rb, ra, _akdep(op, env, val))
             outcomes[f"T:{k}:{i}"] = oc
             if want_cells:
                 cells.add(_cell(op, env, val))
